@@ -214,6 +214,23 @@ func (c *c07) trial(r *core.R, kind string, coder rsec16.Coder, d, p, g int, dat
 			r.Violate("supplied-parity-altered", "%s: supplied parity shard %d was altered", desc, a)
 		}
 	}
+	// A caller that got an error tries again with the very same slices (for
+	// instance after fetching more parity): the second answer must be
+	// truthful as well, whatever the first call left in the missing slots.
+	if err != nil && len(missing) > 0 && l > 0 {
+		var err2 error
+		if pi := core.Protect(func() { err2 = coder.ReconstructData(in, par) }); pi != nil {
+			r.Violate("reconstruct-panic|"+pi.Frame, "%s: second call on the same slices panicked: %s", desc, pi.Msg)
+		} else if err2 == nil {
+			for i := range data {
+				if !bytes.Equal(in[i], data[i]) {
+					r.Violate("nil-error-wrong-data", "%s: first call failed (%v); a second call on the same slices returned nil, but shard %d is not the original", desc, err, i)
+					break
+				}
+			}
+		}
+		r.Count("second_calls_after_error", 1)
+	}
 	r.Count("reconstructions", 1)
 	if len(missing) > 0 {
 		r.Key("%s|%d|%d|%v|%v|%d|%d", kind, d, p, missing, availPar, l, g)
